@@ -60,6 +60,9 @@ def install(ns, prop, level, oracles, bounds, assumptions, extra_tasks=None, ext
         if extra_run and case.get('extra'):
             return ns['check_extra'](case)
         status, viols, info = master.evaluate(case, oracles)
+        if status == 'crash':
+            c, k, m = master.crash_violation(info)
+            viols = list(viols) + [{'clause': c, 'cls': k, 'msg': m}]
         return viols
 
     def coverage(tier, r):
